@@ -113,3 +113,13 @@ def handle(msg):
     except Exception:
         pass
     return n
+
+
+def freeze_tracks(mid):
+    """The same file holding immutable messages (mido.frozen): what an application that deduplicates or hashes its
+    messages keeps in its tracks.  Everything that reads the tracks - save, merge, iteration, length - gives what
+    it gives for the plain messages."""
+    import mido.frozen as fz
+    for tr in mid.tracks:
+        tr[:] = [fz.freeze_message(m) for m in tr]
+    return mid
